@@ -110,6 +110,17 @@ func genCompactCase(r *rand.Rand) SDCase {
 			}
 			c.Ops = append(c.Ops, op)
 			tags["compact"] = true
+		case k < 97 && i%3 == 0:
+			// (only some cases: the dataset cannot be compacted afterwards)
+			// a tombstone that still carries a reference to an identifier nothing else ever mentions (the writer
+			// asserts no internal id for it), repeated the legacy way as the latest version: a compaction that
+			// cannot evaluate the entity must leave all of it alone
+			id := v.IDs[r.Intn(len(v.IDs))]
+			e := model.NormEnt(model.Ent{ID: id, Props: map[string]any{}, Deleted: true,
+				Refs: map[string]any{v.Preds[r.Intn(len(v.Preds))]: fmt.Sprintf("%sghost%d", gen.NsA, i)}})
+			hist[ds+"|"+id] = append(hist[ds+"|"+id], e)
+			c.Ops = append(c.Ops, SDOp{Kind: "batch", DS: ds, Ents: []model.Ent{e}}, SDOp{Kind: "inject", DS: ds, To: id})
+			tags["ghost-ref-tombstone"] = true
 		default:
 			c.Ops = append(c.Ops, SDOp{Kind: "restart"})
 		}
@@ -526,6 +537,16 @@ func (s *sdRun) compactAndCheck(op SDOp) (int, error) {
 			s.ctx.Out.Stat("c12_racing_writes_placed", 1)
 		})
 		defer vh.Clear("compact.beforeFlush")
+		waitWriter = func() {
+			if !fired {
+				// the compaction gave up before its first flush: the write simply follows it
+				fired = true
+				if err := StoreBatch(s.core, op.DS, racing, false); err != nil {
+					s.viol("C12", "racing-writer-error", err.Error(), nil, nil)
+				}
+				s.ctx.Out.Stat("c12_racing_writes_after_a_compaction_without_flush", 1)
+			}
+		}
 	}
 	stats, err := worker.VerifCompactSync(op.DS, op.Reader)
 	if waitWriter != nil {
